@@ -436,7 +436,8 @@ pub fn run_plan<T: HCfg>(plan: &Value, detail: u8, emit: &mut dyn FnMut(&Value))
             }
         }
     }
-    emit(&json!({"a":"end","t":w.now(),"faults_hit":faults_hit}));
+    emit(&json!({"a":"end","t":w.now(),"faults_hit":faults_hit,
+                 "silent_spectator_check": pb(plan, "silent_spectator_check", false)}));
     Ok(())
 }
 
